@@ -262,3 +262,110 @@ func VfC06_ParseMore() {
 		vfAssert("C06.parsemore.print-keeps-type", hC06Same(insts2[k].(interface{ Type() types.Type }).Type(), want[k]))
 	}
 }
+
+// ---- two attribute sets in one module
+
+type hC06Set struct {
+	scal   bool
+	vs     string // "vscale x " or ""
+	wd, ad string // digits: bit width, address space
+	w, as  uint64
+}
+
+func hC06NewSet(tag string) hC06Set {
+	s := hC06Set{}
+	s.scal = vfChoice("vscale"+tag, 2) == 1
+	if s.scal {
+		s.vs = "vscale x "
+	}
+	s.wd = vfString("w"+tag, 1)
+	s.ad = vfString("as"+tag, 1)
+	vfAssume(vfAnd(s.wd[0] >= '2', s.wd[0] <= '9'))
+	vfAssume(vfAnd(s.ad[0] >= '0', s.ad[0] <= '7'))
+	s.w, s.as = uint64(s.wd[0]-'0'), uint64(s.ad[0]-'0')
+	return s
+}
+
+// hC06SetText: a global of the identified struct type in the set's address
+// space, a constant getelementptr expression into it, and a function whose
+// instructions derive their result types from the set's attributes.
+func hC06SetText(tag string, nd string, s hC06Set) string {
+	iw := "i" + s.wd
+	vi := "<" + s.vs + nd + " x " + iw + ">"
+	vf := "<" + s.vs + nd + " x float>"
+	as := " addrspace(" + s.ad + ")"
+	return "@t" + tag + " =" + as + " global %T zeroinitializer\n" +
+		"@e" + tag + " = global i64" + as + "* getelementptr (%T, %T" + as + "* @t" + tag + ", i32 0, i32 1)\n" +
+		"define void @f" + tag + "(" + vi + " %a, " + vi + " %b, " + vf + " %x, " + vf + " %y, %T" + as + "* %p, " + iw + as + "* %q) {\n" +
+		"\t%i0 = icmp eq " + vi + " %a, %b\n" +
+		"\t%i1 = fcmp oeq " + vf + " %x, %y\n" +
+		"\t%i2 = shufflevector " + vi + " %a, " + vi + " %b, <" + s.vs + nd + " x i32> zeroinitializer\n" +
+		"\t%i3 = getelementptr %T, %T" + as + "* %p, i32 0, i32 1\n" +
+		"\t%i4 = getelementptr " + iw + ", " + iw + as + "* %q, i32 1\n" +
+		"\t%i5 = zext " + vi + " %a to <" + s.vs + nd + " x i64>\n" +
+		"\t%i6 = cmpxchg " + iw + as + "* %q, " + iw + " 0, " + iw + " 1 seq_cst seq_cst\n" +
+		"\t%i7 = alloca %T, addrspace(" + s.ad + ")\n" +
+		"\t%i8 = icmp eq %T" + as + "* %p, null\n" +
+		"\tret void\n}\n"
+}
+
+func hC06SetWant(n uint64, s hC06Set, td types.Type) []types.Type {
+	it := types.NewInt(s.w)
+	vec := func(el types.Type) types.Type {
+		return &types.VectorType{Len: n, ElemType: el, Scalable: s.scal}
+	}
+	ptr := func(el types.Type) types.Type { return &types.PointerType{ElemType: el, AddrSpace: types.AddrSpace(s.as)} }
+	return []types.Type{vec(types.I1), vec(types.I1), vec(it), ptr(types.I64), ptr(it), vec(types.I64),
+		types.NewStruct(it, types.I1), ptr(td), types.I1}
+}
+
+var hC06PairIDs = [...]string{".pairs.icmp", ".pairs.fcmp", ".pairs.shufflevector", ".pairs.gep-struct", ".pairs.gep", ".pairs.zext", ".pairs.cmpxchg", ".pairs.alloca", ".pairs.icmp-pointer"}
+
+// VfC06_ParsePairs: one module, two functions with the same instruction kinds
+// over two independently symbolic attribute sets (scalable or fixed, element
+// width, address space; same lane count, same identified struct type), plus a
+// constant getelementptr expression per set.  Every result type is checked
+// once the whole module has been translated and again after the module has
+// been printed: the type of an instruction is its own, whatever types the
+// translator or the IR library computed for other instructions in between.
+//
+//vf:unwind 300
+//vf:steps 60000000
+//vf:shards 4
+func VfC06_ParsePairs() { hC06Pairs("C06") }
+
+func hC06Pairs(pfx string) {
+	nd := vfString("n", 1)
+	vfAssume(vfAnd(nd[0] >= '1', nd[0] <= '9'))
+	n := uint64(nd[0] - '0')
+	s1, s2 := hC06NewSet("1"), hC06NewSet("2")
+	src := "%T = type { i32, i64 }\n" + hC06SetText("1", nd, s1) + hC06SetText("2", nd, s2)
+	m, err := ParseString("t.ll", src)
+	vfReach(pfx + ".pairs")
+	vfObserveStr("src", src)
+	vfAssert(pfx+".pairs.accepted", err == nil)
+	if err != nil {
+		return
+	}
+	td := m.TypeDefs[0]
+	sets := [2]hC06Set{s1, s2}
+	for round := 0; round < 2; round++ {
+		for k := 0; k < 2; k++ {
+			want := hC06SetWant(n, sets[k], td)
+			insts := m.Funcs[k].Blocks[0].Insts
+			vfAssert(pfx+".pairs.count", len(insts) == len(want))
+			if len(insts) != len(want) {
+				return
+			}
+			for j := range want {
+				vfAssert(pfx+hC06PairIDs[j], hC06Same(insts[j].(interface{ Type() types.Type }).Type(), want[j]))
+			}
+			e := m.Globals[2*k+1].Init
+			vfAssert(pfx+".pairs.gep-expr", hC06Same(e.Type(), &types.PointerType{ElemType: types.I64, AddrSpace: types.AddrSpace(sets[k].as)}))
+			vfAssert(pfx+".pairs.global", hC06Same(m.Globals[2*k].Type(), &types.PointerType{ElemType: td, AddrSpace: types.AddrSpace(sets[k].as)}))
+		}
+		if round == 0 {
+			_ = m.String()
+		}
+	}
+}
